@@ -226,6 +226,22 @@ func unmarshalScalar[S any](src S, dst any) error {
 	case *[]string:
 		*tdst = append(*tdst, fmt.Sprint(src))
 
+	case *float64:
+		// An integer is a valid value for a float (`ratio: 5`), as it is for
+		// yaml.v3.
+		i, ok := any(src).(int)
+		if !ok {
+			return fmt.Errorf("%w: cannot unmarshal %T into %T", ErrIncompatibleTypes, src, dst)
+		}
+		*tdst = float64(i)
+
+	case *[]float64:
+		i, ok := any(src).(int)
+		if !ok {
+			return fmt.Errorf("%w: cannot unmarshal %T into %T", ErrIncompatibleTypes, src, dst)
+		}
+		*tdst = append(*tdst, float64(i))
+
 	default:
 		return fmt.Errorf("%w: cannot unmarshal %T into %T", ErrIncompatibleTypes, src, dst)
 	}
